@@ -31,7 +31,8 @@ func encErr(err error) any {
 	case gojq.ValueError:
 		return vlib.M{"k": "err", "v": vlib.EncVal(e.Value())}
 	default:
-		return vlib.M{"k": "err", "v": vlib.M{"t": "opaque"}, "msg": err.Error()}
+		// a message error: `catch` receives the message as a string (msgc = its code points)
+		return vlib.M{"k": "err", "v": vlib.M{"t": "opaque"}, "msg": err.Error(), "msgc": vlib.Cps(err.Error())}
 	}
 }
 
@@ -97,7 +98,11 @@ func evalCase(c map[string]any, maxOut int, budget time.Duration, noast bool, be
 				rec["panic"] = fmt.Sprint(e)
 			}
 		}()
-		code, cerr = gojq.Compile(q)
+		if _, ok := c["inputiter"]; ok {
+			code, cerr = gojq.Compile(q, gojq.WithInputIter(gojq.NewIter[any]()))
+		} else {
+			code, cerr = gojq.Compile(q)
+		}
 	}()
 	if cerr != nil {
 		rec["cerr"] = cerr.Error()
@@ -110,8 +115,23 @@ func evalCase(c map[string]any, maxOut int, budget time.Duration, noast bool, be
 	runs := []any{}
 	for _, iv := range c["inputs"].([]any) {
 		beat()
+		if ii, ok := c["inputiter"].([]any); ok {
+			// WithInputIter: a fresh iterator over the given values for every run
+			vals := make([]any, len(ii))
+			for k, x := range ii {
+				vals[k] = vlib.DecVal(x, rep)
+			}
+			code, cerr = gojq.Compile(q, gojq.WithInputIter(gojq.NewIter(vals...)))
+			if cerr != nil {
+				rec["cerr"] = cerr.Error()
+				return rec
+			}
+		}
 		r := runCode(code, vlib.DecVal(iv, rep), nil, maxOut, budget)
 		run := vlib.M{"in": iv, "out": r.Out}
+		if ii, ok := c["inputiter"].([]any); ok {
+			run["inputs"] = ii
+		}
 		if r.Err != nil {
 			run["err"] = r.Err
 		}
